@@ -15,8 +15,8 @@ import (
 
 func init() {
 	register(&Rule{
-		ID:  "C05",
-		Run: runC05,
+		ID:           "C05",
+		Run:          runC05,
 		ThoroughGOOS: []string{"darwin", "freebsd", "openbsd", "windows"},
 		Explanation: "Lock discipline of live reconfiguration (RacerD/Eraser-style, type-based). For the structures named by the property (DNS server and its configuration, client registry, filter, query log, statistics, DHCPv4 server): " +
 			"(G) guarded-by: every field that is written after start-up has one lock held at all of its accesses (write mode at writes), using intra-procedural must-locksets plus must-entry locksets propagated over the VTA call graph; (X) re-entrancy: no lock is acquired while the same lock is held or may be held on entry through some call chain — including read-after-read on an RWMutex, which deadlocks as soon as a writer queues in between; " +
@@ -43,11 +43,11 @@ var c05Tracked = map[string]bool{
 // c05InitCallers: functions whose calls happen during start-up, before the
 // servers run (their call sites are ignored when computing must-entry locksets).
 var c05InitCallers = map[string]string{
-	"home.initDNS":         "start-up sequence of home.run, before the DNS/web servers are started",
-	"home.initDNSServer":   "start-up",
-	"home.run":             "start-up",
+	"home.initDNS":               "start-up sequence of home.run, before the DNS/web servers are started",
+	"home.initDNSServer":         "start-up",
+	"home.run":                   "start-up",
 	"home.setupDNSFilteringConf": "start-up",
-	"home.newServerConfig": "builds a configuration value",
+	"home.newServerConfig":       "builds a configuration value",
 }
 
 func runC05(c *Ctx) {
@@ -456,25 +456,25 @@ func runC05(c *Ctx) {
 // comments.  It is used only to choose which edge of a cycle is reported;
 // without a cycle no edge is ever reported, whatever its direction.
 var c05LockLevel = map[core.LockID]int{
-	"home.homeContext.controlLock":           0,
-	"home.signalHandler.mu":                  1,
-	"home.tlsManager.mu":                     2,
-	"home.configuration.RWMutex":             3,
-	"dnsforward.Server.serverLock":           4,
-	"filtering.Config.filtersMu":             5,
+	"home.homeContext.controlLock":               0,
+	"home.signalHandler.mu":                      1,
+	"home.tlsManager.mu":                         2,
+	"home.configuration.RWMutex":                 3,
+	"dnsforward.Server.serverLock":               4,
+	"filtering.Config.filtersMu":                 5,
 	"filtering.DNSFilter.filtersInitializerLock": 6,
-	"filtering.DNSFilter.engineLock":         6,
-	"filtering.DNSFilter.confMu":             7,
-	"querylog.queryLog.confMu":               5,
-	"querylog.queryLog.fileFlushLock":        6,
-	"querylog.queryLog.bufferLock":           7,
-	"querylog.queryLog.fileWriteLock":        7,
-	"stats.StatsCtx.confMu":                  5,
-	"stats.StatsCtx.currMu":                  6,
-	"home.clientsContainer.lock":             8,
-	"client.Storage.mu":                      9,
-	"dhcpd.v6Server.leasesLock":              10,
-	"dhcpd.v4Server.leasesLock":              11,
+	"filtering.DNSFilter.engineLock":             6,
+	"filtering.DNSFilter.confMu":                 7,
+	"querylog.queryLog.confMu":                   5,
+	"querylog.queryLog.fileFlushLock":            6,
+	"querylog.queryLog.bufferLock":               7,
+	"querylog.queryLog.fileWriteLock":            7,
+	"stats.StatsCtx.confMu":                      5,
+	"stats.StatsCtx.currMu":                      6,
+	"home.clientsContainer.lock":                 8,
+	"client.Storage.mu":                          9,
+	"dhcpd.v6Server.leasesLock":                  10,
+	"dhcpd.v4Server.leasesLock":                  11,
 }
 
 // c05DocumentedLock returns the lock the code documents as the guard of a
@@ -628,16 +628,16 @@ func isInitFn(fn *ssa.Function) bool {
 }
 
 var c05InitFns = map[string]string{
-	"home.setupDNSFilteringConf": "builds the filtering configuration before the filter exists",
-	"home.initDNS":               "start-up: creates stats, query log, filter and DNS server before any server runs",
-	"home.initDNSServer":         "start-up",
-	"filtering.New":              "constructor",
-	"dnsforward.NewServer":       "constructor",
-	"stats.New":                  "constructor",
-	"querylog.newQueryLog":       "constructor",
-	"client.NewStorage":          "constructor",
-	"dhcpd.v4Create":             "constructor",
-	"(*home.clientsContainer).Init":        "start-up: wires the client storage before the DNS server exists",
+	"home.setupDNSFilteringConf":            "builds the filtering configuration before the filter exists",
+	"home.initDNS":                          "start-up: creates stats, query log, filter and DNS server before any server runs",
+	"home.initDNSServer":                    "start-up",
+	"filtering.New":                         "constructor",
+	"dnsforward.NewServer":                  "constructor",
+	"stats.New":                             "constructor",
+	"querylog.newQueryLog":                  "constructor",
+	"client.NewStorage":                     "constructor",
+	"dhcpd.v4Create":                        "constructor",
+	"(*home.clientsContainer).Init":         "start-up: wires the client storage before the DNS server exists",
 	"(*home.webAPI).handleInstallConfigure": "first run only: no DNS server or filter is serving yet",
 	"home.validateConfig":                   "start-up: validates the configuration just parsed from disk",
 	"home.parseConfig":                      "start-up",
